@@ -47,11 +47,14 @@ type Pipe struct {
 	recvActive int
 	closing    int
 	NSend      int
+	Delivered  int // records that actually reached the peer's queue
 	NRecv      int
 	Taken      int
 	Out        [][]byte // every record the library passed to Send (successfully or not), in order
 	Overlaps   []string
 	FaultsDone []string
+	FailRecv   error // set by an environment thread: the pending / next library Recv fails with it (once)
+	FailSend   error // the next library Send fails with it (once)
 }
 
 var errFault = errors.New("injected channel fault")
@@ -103,6 +106,12 @@ func (e *LibEnd) Send(b []byte) error {
 		vs.Note("fault", p.opts.Name, "send", strconv.Itoa(p.NSend))
 		return errFault
 	}
+	if p.FailSend != nil {
+		err := p.FailSend
+		p.FailSend = nil
+		vs.Note("fault", p.opts.Name, "send", strconv.Itoa(p.NSend))
+		return err
+	}
 	if p.libClosed {
 		return errors.New("pipe: send on closed channel")
 	}
@@ -110,6 +119,7 @@ func (e *LibEnd) Send(b []byte) error {
 		return io.ErrClosedPipe
 	}
 	p.s2c.q = append(p.s2c.q, cp)
+	p.Delivered++
 	return nil
 }
 
@@ -123,7 +133,7 @@ func (e *LibEnd) Recv() ([]byte, error) {
 	}
 	p.recvActive++
 	vs.Await(func() bool {
-		return len(p.c2s.q) > 0 || p.c2s.closed || (p.libClosed && p.opts.CloseUnblocksRecv)
+		return len(p.c2s.q) > 0 || p.c2s.closed || (p.libClosed && p.opts.CloseUnblocksRecv) || p.FailRecv != nil
 	}, "pipe recv ("+p.opts.Name+")")
 	if p.opts.Monitor {
 		vs.Yield("pipe recv.2 (" + p.opts.Name + ")")
@@ -132,6 +142,12 @@ func (e *LibEnd) Recv() ([]byte, error) {
 	p.NRecv++
 	if p.libClosed && p.opts.CloseUnblocksRecv {
 		return nil, fmt.Errorf("read pipe: %w", net.ErrClosed)
+	}
+	if p.FailRecv != nil {
+		err := p.FailRecv
+		p.FailRecv = nil
+		vs.Note("fault", p.opts.Name, "recv-error", strconv.Itoa(p.NRecv))
+		return nil, err
 	}
 	if p.opts.Faults {
 		n := 2
